@@ -146,6 +146,9 @@ package vals
 //@   inline
 //@ func cmpInner
 //@   inline
+//   (used by verifCmpList, which logs calls: nothing but the supplied comparison is consulted for elements)
+//@   invariant ncallsof("Cmp") == 0 && ncallsof("CmpTotal") == 0 && ncallsof("Equal") == 0
+//@   invariant forall k int :: 0 <= k && k < ncalls && callis(k, "fv") ==> callres(k).(Ordering) == CmpEqual
 //@ func UnifyNums2
 //@   inline
 //@ func getNumType
@@ -401,3 +404,14 @@ package vals
 //@   loop 1 invariant ncallsof("Iterator.HasElem") == ncallsof("Iterator.Next") && ncallsof("Iterator.Elem") == ncallsof("Iterator.Next")
 //@   exit [every-entry-contributes] ncallsof("Iterator.Elem") == ncallsof("Iterator.Next") && ncallsof("Iterator.HasElem") == ncallsof("Iterator.Elem") + 1
 //@   exit [stops-only-when-exhausted] callis(ncalls - 1, "Iterator.HasElem") && !callres(ncalls - 1).(bool)
+
+// C09, lists: elements are compared only through the comparison handed in (so
+// compare &total orders lists of mixed element types by CmpTotal, compare by
+// Cmp), and the first pair that is not equal decides the result.
+//@ func verifCmpList
+//@   props C09 C10
+//@   nosafety
+//@   requires a != nil && b != nil
+//@   log fv Cmp CmpTotal Equal
+//@   exit [elements-compared-only-by-the-given-comparison] ncallsof("Cmp") == 0 && ncallsof("CmpTotal") == 0 && ncallsof("Equal") == 0
+//@   exit [first-difference-decides] forall k int :: 0 <= k && k < ncalls && callis(k, "fv") && callres(k).(Ordering) != CmpEqual ==> result == callres(k).(Ordering)
